@@ -32,7 +32,12 @@ CHECKS = {'C01': {'level': 'exploration',
                  'successful insert, delete or key write, or an in-flight observation of a transaction with >=1 buffered change; distinct = hash of '
                  'the trace | controlled-schedule part (TestSchedWriters with VERIF_PROP=C02): generated concurrent writer programs under the '
                  'cooperative scheduler; the final state must equal the initial state with every committed transaction part folded in apply order '
-                 '(each commit applied all it buffered and nothing else, also when other writers run between its blocks)',
+                 '(each commit applied all it buffered and nothing else, also when other writers run between its blocks) | free-parallel part '
+                 '(TestParWriters): the same generated programs (2..8 writer goroutines, 4..30 transactions each, single- and multi-block, puts, '
+                 'commutative and order-sensitive merges, owned deletes, inserts; sparse and dense layouts, capacities 1/1024/16385) run with REAL '
+                 'parallelism on all cores (common start barrier, pseudo-random processor yields at the hook points, also inside a block commit); '
+                 'the same oracles are evaluated at quiescence from the recorded stream (record order of one block = apply order because the logger '
+                 'is called under the block latch); failures are reported with program and stream and are not bit-reproducible',
          'assumptions': ['in-flight observation happens from the same goroutine between two steps of the body (no latch is held there)',
                          'generator exclusions driven by known findings are counted in coverage.excluded_by_known_finding'],
          'tests': [{'run': '^TestC02$',
@@ -44,7 +49,13 @@ CHECKS = {'C01': {'level': 'exploration',
                     'checks': {'quick': 1000, 'thorough': 15000},
                     'shards': {'quick': 1, 'thorough': 6},
                     'env': {'VERIF_PROP': 'C02', 'GOMAXPROCS': 1},
-                    'timeout': {'quick': 900, 'thorough': 3400}}]},
+                    'timeout': {'quick': 900, 'thorough': 3400}},
+                   {'run': '^TestParWriters$',
+                    'checks': {'quick': 300, 'thorough': 6000},
+                    'shards': {'quick': 1, 'thorough': 3},
+                    'env': {'VERIF_PROP': 'C02'},
+                    'timeout': {'quick': 900, 'thorough': 3400},
+                    'shrinktime': '5s'}]},
  'C03': {'level': 'exploration',
          'rule': 'model-based stateful histories (as C01, with rollbacks and key operations) plus actions createIndex(col, predicate)/dropIndex at '
                  'arbitrary points, up to 4 live indexes, several per column; predicate families: numeric threshold (<,>=) and parity decoded with '
@@ -118,7 +129,12 @@ CHECKS = {'C01': {'level': 'exploration',
                  'commit, a merge or an offset reuse and >=1 commit was replayed; distinct = hash of trace/schedule | free-parallel part '
                  '(TestC06Parallel): the writers of 2..4 different blocks commit 50..400 transactions each with real parallelism into a serialized '
                  'commit.Log (memory or file); at quiescence the log must decode, with bounds-checked framing, into exactly the commits that were '
-                 'emitted per block, and a replica fed from it must equal the primary row for row',
+                 'emitted per block, and a replica fed from it must equal the primary row for row | free-parallel part (TestParWriters): the same '
+                 'generated programs (2..8 writer goroutines, 4..30 transactions each, single- and multi-block, puts, commutative and '
+                 'order-sensitive merges, owned deletes, inserts; sparse and dense layouts, capacities 1/1024/16385) run with REAL parallelism on '
+                 'all cores (common start barrier, pseudo-random processor yields at the hook points, also inside a block commit); the same oracles '
+                 'are evaluated at quiescence from the recorded stream (record order of one block = apply order because the logger is called under '
+                 'the block latch); failures are reported with program and stream and are not bit-reproducible',
          'assumptions': ['the replica has the same schema (columns created at the same history points) and the same index definitions',
                          'comparison happens when the primary is quiescent'],
          'tests': [{'run': '^TestC06$',
@@ -137,7 +153,13 @@ CHECKS = {'C01': {'level': 'exploration',
                    {'run': '^TestC06Parallel$',
                     'checks': {'quick': 100, 'thorough': 2000},
                     'shards': {'quick': 1, 'thorough': 2},
-                    'timeout': {'quick': 900, 'thorough': 3400}}]},
+                    'timeout': {'quick': 900, 'thorough': 3400}},
+                   {'run': '^TestParWriters$',
+                    'checks': {'quick': 300, 'thorough': 6000},
+                    'shards': {'quick': 1, 'thorough': 3},
+                    'env': {'VERIF_PROP': 'C06'},
+                    'timeout': {'quick': 900, 'thorough': 3400},
+                    'shrinktime': '5s'}]},
  'C07': {'level': 'exploration',
          'rule': 'model-based stateful histories over all column kinds (enum, bool, record, key, expire, late columns, custom merges), all Capacity '
                  'options, 0..3 blocks with patterned bulk deletes and offset reuse; action snapshotRestore (up to 3 per history): Snapshot to a '
@@ -164,8 +186,14 @@ CHECKS = {'C01': {'level': 'exploration',
                  'logical clocks; lo_b = commits of transactions that had RETURNED before the snapshot call began, hi_b = commits applied before it '
                  'returned; the reference model computes the block states s0..sn; after Restore into a fresh collection block b must equal s_k for '
                  'some lo_b <= k <= hi_b; Snapshot and Restore must return nil, not panic, not hang. non-trivial = >=1 commit was applied between '
-                 'recorder-open and pre-close; distinct = program + schedule',
-         'assumptions': ['context switches only at the verif yield points',
+                 'recorder-open and pre-close; distinct = program + schedule | free-parallel part (TestC08Parallel): 2..8 writer goroutines (4..30 '
+                 'transactions each) and one goroutine calling Snapshot after a drawn delay run with REAL parallelism; logical times come from one '
+                 'atomic counter (transaction begin/return, commit recorded, Snapshot call/return); the same per-block prefix oracle with lo_b = '
+                 'commits of transactions that had returned before Snapshot was called and hi_b = position of the last commit whose transaction had '
+                 'BEGUN before Snapshot returned (a commit reaches the snapshot recorder before the recording logger, so its own logical time may be '
+                 'later than the return); not bit-reproducible',
+         'assumptions': ['controlled-schedule parts: context switches only at the verif yield points; free-parallel part: whatever the Go scheduler '
+                         'produces on 16 cores',
                          'writers do not insert while known finding f10 (in-flight reservations visible to snapshots) is active - counted'],
          'tests': [{'run': '^TestC08Sched$',
                     'checks': {'quick': 2500, 'thorough': 8000},
@@ -174,7 +202,13 @@ CHECKS = {'C01': {'level': 'exploration',
                     'env': {'GOMAXPROCS': 1}},
                    {'run': '^TestC08Exhaustive$',
                     'env': {'VERIF_SCHED_LIMIT': {'quick': 1500, 'thorough': 60000}, 'GOMAXPROCS': 1},
-                    'timeout': {'quick': 900, 'thorough': 3400}}]},
+                    'timeout': {'quick': 900, 'thorough': 3400}},
+                   {'run': '^TestC08Parallel$',
+                    'checks': {'quick': 300, 'thorough': 1200},
+                    'shards': {'quick': 1, 'thorough': 8},
+                    'timeout': {'quick': 900, 'thorough': 3400},
+                    'shrinktime': '5s',
+                    'par': 8}]},
  'C09': {'level': 'exploration',
          'rule': 'controlled-schedule part: generated programs of 2..4 writer tasks (1..2 transactions each, 1..4 steps: merges and puts into SHARED '
                  'rows of 1..3 blocks through an additive int merge, an order-sensitive int merge v*3+d and an order-sensitive same-length string '
@@ -187,7 +221,12 @@ CHECKS = {'C01': {'level': 'exploration',
                  'deltas; one record column with an IN-PLACE merge function (returns its first argument; the record encoder yields) and 10% '
                  'transactions that merge and then return an error (their deltas must not count). non-trivial = two tasks merged into the same row '
                  'and their commits on that block were adjacent in apply order (schedules) / >=2 workers contended (parallel); distinct = program + '
-                 'schedule',
+                 'schedule | free-parallel part (TestParWriters): the same generated programs (2..8 writer goroutines, 4..30 transactions each, '
+                 'single- and multi-block, puts, commutative and order-sensitive merges, owned deletes, inserts; sparse and dense layouts, '
+                 'capacities 1/1024/16385) run with REAL parallelism on all cores (common start barrier, pseudo-random processor yields at the hook '
+                 'points, also inside a block commit); the same oracles are evaluated at quiescence from the recorded stream (record order of one '
+                 'block = apply order because the logger is called under the block latch); failures are reported with program and stream and are not '
+                 'bit-reproducible',
          'assumptions': ["context switches happen only at the verif yield points and body yields (windows inside one buffer's apply loop are reached "
                          'only by the free-parallel part)',
                          'shared rows are never deleted by the generated programs (so the fold is well defined)'],
@@ -202,7 +241,13 @@ CHECKS = {'C01': {'level': 'exploration',
                    {'run': '^TestC09Parallel$',
                     'checks': {'quick': 120, 'thorough': 2000},
                     'shards': {'quick': 1, 'thorough': 2},
-                    'timeout': {'quick': 900, 'thorough': 3400}}]},
+                    'timeout': {'quick': 900, 'thorough': 3400}},
+                   {'run': '^TestParWriters$',
+                    'checks': {'quick': 300, 'thorough': 6000},
+                    'shards': {'quick': 1, 'thorough': 3},
+                    'env': {'VERIF_PROP': 'C09'},
+                    'timeout': {'quick': 900, 'thorough': 3400},
+                    'shrinktime': '5s'}]},
  'C10': {'level': 'exploration',
          'rule': 'workload invariant: every row always holds a, b, c with a == -b == c; a writer transaction changes all three columns of its rows '
                  'together (puts, merges) or deletes a row and inserts a new one. Mode 1 (latch-held, controlled): the writer is parked by the '
@@ -241,7 +286,13 @@ CHECKS = {'C01': {'level': 'exploration',
                  'had held values in a column the new insert did not set (sequential) / a surviving row sits on a previously deleted offset '
                  '(parallel); distinct = hash of trace/program | controlled-schedule part (TestSchedWriters with VERIF_PROP=C11): generated writer '
                  'programs with multi-block deletes and inserts under the cooperative scheduler; when the transaction parts are folded in apply '
-                 'order an insert must never have been given an offset that still holds a live row, and Count == live rows at the end',
+                 'order an insert must never have been given an offset that still holds a live row, and Count == live rows at the end | '
+                 'free-parallel part (TestParWriters): the same generated programs (2..8 writer goroutines, 4..30 transactions each, single- and '
+                 'multi-block, puts, commutative and order-sensitive merges, owned deletes, inserts; sparse and dense layouts, capacities '
+                 '1/1024/16385) run with REAL parallelism on all cores (common start barrier, pseudo-random processor yields at the hook points, '
+                 'also inside a block commit); the same oracles are evaluated at quiescence from the recorded stream (record order of one block = '
+                 'apply order because the logger is called under the block latch); failures are reported with program and stream and are not '
+                 'bit-reproducible',
          'assumptions': ['free-parallel runs are not bit-reproducible: the replay re-runs the generated program (schedule left to the Go runtime)'],
          'tests': [{'run': '^TestC11$',
                     'checks': {'quick': 200, 'thorough': 2000},
@@ -256,7 +307,13 @@ CHECKS = {'C01': {'level': 'exploration',
                     'checks': {'quick': 1200, 'thorough': 15000},
                     'shards': {'quick': 1, 'thorough': 6},
                     'env': {'VERIF_PROP': 'C11', 'GOMAXPROCS': 1},
-                    'timeout': {'quick': 900, 'thorough': 3400}}]},
+                    'timeout': {'quick': 900, 'thorough': 3400}},
+                   {'run': '^TestParWriters$',
+                    'checks': {'quick': 300, 'thorough': 6000},
+                    'shards': {'quick': 1, 'thorough': 3},
+                    'env': {'VERIF_PROP': 'C11'},
+                    'timeout': {'quick': 900, 'thorough': 3400},
+                    'shrinktime': '5s'}]},
  'C12': {'level': 'exploration',
          'rule': 'model-based stateful histories on keyed schemas: transactions of 1..8 steps over InsertKey/UpsertKey/QueryKey/DeleteKey/SetKey '
                  'with keys from a 6-key alphabet (forcing repeats, incl. the empty key), mixed with updates/deletes by offset, rollbacks, failing '
@@ -352,7 +409,12 @@ CHECKS = {'C01': {'level': 'exploration',
                  '(sequential) / two tasks whose commits on one block were adjacent with both pre-latch points passed before either latched '
                  '(schedules); distinct = hash of trace/schedule | snapshot part (TestC15Snapshot): generated transactions commit WHILE a snapshot '
                  'is in progress (run by the verif hooks at recorder-open / pre-chunk / pre-close / pre-copy); each must still emit exactly one '
-                 'commit per changed block to the logger, and the snapshot itself nothing',
+                 'commit per changed block to the logger, and the snapshot itself nothing | free-parallel part (TestParWriters): the same generated '
+                 'programs (2..8 writer goroutines, 4..30 transactions each, single- and multi-block, puts, commutative and order-sensitive merges, '
+                 'owned deletes, inserts; sparse and dense layouts, capacities 1/1024/16385) run with REAL parallelism on all cores (common start '
+                 'barrier, pseudo-random processor yields at the hook points, also inside a block commit); the same oracles are evaluated at '
+                 'quiescence from the recorded stream (record order of one block = apply order because the logger is called under the block latch); '
+                 'failures are reported with program and stream and are not bit-reproducible',
          'assumptions': ['record order at the logger is apply order (Append is called under the block latch)'],
          'tests': [{'run': '^TestC15$',
                     'checks': {'quick': 250, 'thorough': 2500},
@@ -371,7 +433,13 @@ CHECKS = {'C01': {'level': 'exploration',
                     'checks': {'quick': 300, 'thorough': 4000},
                     'shards': {'quick': 1, 'thorough': 4},
                     'env': {'GOMAXPROCS': 1},
-                    'timeout': {'quick': 900, 'thorough': 3400}}]},
+                    'timeout': {'quick': 900, 'thorough': 3400}},
+                   {'run': '^TestParWriters$',
+                    'checks': {'quick': 300, 'thorough': 6000},
+                    'shards': {'quick': 1, 'thorough': 3},
+                    'env': {'VERIF_PROP': 'C15'},
+                    'timeout': {'quick': 900, 'thorough': 3400},
+                    'shrinktime': '5s'}]},
  'C16': {'level': 'exploration',
          'rule': 'model-based stateful histories over a string column whose values come from a 5-value alphabet with forced duplicates (incl. the '
                  'empty string) and default / order-sensitive merge functions: inserts, overwrites (also to an existing value), merges, deletes, '
